@@ -626,7 +626,7 @@ def other_instance(kern, method, q, st_enc):
 
 
 def _correspondence(ctx, rng, quick, kern):
-    nplans = 3 if quick else 14
+    nplans = 3 if quick else 40
     pending = []          # (model line repaired, model line asfound, real observation, case info)
 
     def one(plan, bodies, cut, faults, st_enc, kind, snapshots=False):
@@ -772,15 +772,20 @@ def oracle(ctx, kern, plan, info, real):
         for i, s in enumerate(real["snaps"]):
             es = erase(dec_state(s), own)
             if (es["pf"]["anchors"] != want["pf"]["anchors"]) if pf else not same_modulo(es, want):
-                ctx.violation("a foreign rule or another instance's object changed during the session",
-                              dict(rep, at_command=i, trace=real["trace"][: i + 3]))
+                v = dict(rep, at_command=i, trace=real["trace"][max(0, i - 2): i + 3])
+                if plan.method == "pf-freebsd":
+                    v["defect"] = "F17"
+                ctx.violation("a foreign rule or another instance's object changed during the session (%s)" % plan.method, v)
                 break
     if not teardown_fault:
         ok = same_modulo(fin, want)
         if pf:
-            ok = ok and pf_identity(plan, s0, fin, rep, ctx)
+            ok = pf_identity(plan, s0, fin, rep, ctx) and ok
         if not ok and not pf:
-            ctx.violation("set-up + tear-down is not the identity on the packet-filter state", dict(rep, final=real["final"][:600]))
+            v = dict(rep, final=real["final"][:600])
+            if plan.method == "tproxy":
+                v["defect"] = "F9"
+            ctx.violation("set-up + tear-down is not the identity on the packet-filter state (%s)" % plan.method, v)
         elif not ok:
             ctx.count("pf_identity_deviations")
         return
@@ -811,7 +816,7 @@ def oracle(ctx, kern, plan, info, real):
         ctx.violation("after one failing tear-down command traffic is still diverted (%s)" % plan.method, v)
     if dv and single and listing_fault:
         ctx.count("listing_fault_leaves_rules_until_next_session")
-        ctx.known("F42", "a failing `iptables -nL` (ipt_chain_exists) at tear-down skips that family's whole restore: the rules keep diverting until a later session cleans up")
+        known_once(ctx, "F42", "a failing `iptables -nL` (ipt_chain_exists) at tear-down skips that family's whole restore: the rules keep diverting until a later session cleans up")
         ctx.violation("after a failing chain listing at tear-down traffic is still diverted (%s)" % plan.method,
                       dict(rep, still_diverting=dv, finding_id="F42"))
     # (iii) a later fault-free session on the same port starts and reaches the clean state
@@ -829,9 +834,14 @@ def oracle(ctx, kern, plan, info, real):
             if mark_residue:
                 ctx.count("nat_mark_rule_residue")
                 v["finding_id"] = "F41"
-                ctx.known("F41", "nat with --user/--group: a failing `-t mangle -D OUTPUT ... MARK` at tear-down leaves the MARK rule for good")
+                known_once(ctx, "F41", "nat with --user/--group: a failing `-t mangle -D OUTPUT ... MARK` at tear-down leaves the MARK rule for good")
             ctx.violation("after one failing tear-down command a later session on the same port %s (%s)"
                           % ("cannot start" if not started else "does not reach the clean state", plan.method), v)
+
+
+def known_once(ctx, fid, text):
+    if not any(k[0] == fid for k in ctx.known_hits):
+        ctx.known(fid, text)
 
 
 def pf_identity(plan, s0, fin, rep, ctx):
